@@ -34,20 +34,36 @@ package CFB8
 //@   ensures all(k, 0, 16, cf.iv[cf.ivPos + k] == cfbR(cf, src, dst, len(src), k))   [@value]
 //@   modifies cf.iv[:], cf.ivPos, dst[0:len(src)]                                    [@frame]
 
-// XORKeyStream for messages of at most two blocks: always the byte-at-a-time path (the bulk path
-// needs len(src) > 32; its loops are therefore unreachable here and annotated `unroll 0`).
+// XORKeyStream, every length. Up to two blocks, and whenever dst and src are the same memory, it is
+// the byte-at-a-time path. For longer messages in separate buffers the bulk path runs: the first
+// block through xorKeyStream, then one block encryption per byte straight from the ciphertext
+// (which then is the register), finally the last 16 ciphertext bytes become the register at ring
+// position 0. Which path is taken depends on comparing the ADDRESSES of dst and src (address model:
+// distinct objects occupy disjoint address ranges); the branch for overlapping buffers while
+// decrypting is proved unreachable under the precondition "same memory or separate objects"
+// (its two loops are annotated `unroll 0`, i.e. their unwinding obligation is that proof).
+// (the output relation is stated in two ranges: for j >= 16 the register consists of ciphertext bytes only,
+// cfbR(j, k) == cfbC(j + k - 16))
 //@ func (*CFB8).XORKeyStream(cf; dst, src)
 //@   mayalias dst, src
-//@   requires len(src) <= 32
+//@   perreturn
+//@   split cf.de in 0..1
 //@   requires cf.blockSize == 16 && len(cf.iv) == 48 && 0 <= cf.ivPos && cf.ivPos <= 32 && !isnil(cf.c)
 //@   requires base(dst) != base(src) || off(dst) == off(src)
-//@   requires base(cf.iv) != base(dst) && base(cf.iv) != base(src) && base(cf.iv) != base(cf)
+//@   requires base(cf.iv) != base(dst) && base(cf.iv) != base(src) && base(cf.iv) != base(cf) && off(cf.iv) == 0
 //@   loop 0: unroll 0
 //@   loop 1: unroll 0
-//@   loop 2: unroll 0
+//@   loop 2: modifies cf.iv[0:16], dst[16:len(src)]
+//@   loop 2: invariant -1 <= rangeindex && rangeindex < len(src) - 16 && len(src) > 32
+//@   loop 2: invariant (rangeindex >= 0 && i == rangeindex) || rangeindex == -1
+//@   loop 2: invariant all(j, 0, 16, dst[j] == old(src[j]) ^ hi8(aesE(stream(cf.c), vec16(k, cfbR(cf, src, dst, j, k)))))
+//@   loop 2: invariant all(j, 16, rangeindex + 17, dst[j] == old(src[j]) ^ hi8(aesE(stream(cf.c), vec16(k, cfbC(cf, src, dst, j + k - 16)))))
+//@   loop 2: hint j = rangeindex + 17
+//@   loop 2: hint j = rangeindex + 18
 //@   panics when len(src) != 0 && len(dst) < len(src)
 //@   ensures 0 <= cf.ivPos && cf.ivPos <= 32                                         [@wf]
-//@   ensures all(j, 0, len(src), dst[j] == old(src[j]) ^ hi8(aesE(stream(cf.c), vec16(k, cfbR(cf, src, dst, j, k)))))   [@value]
+//@   ensures all(j, 0, 16, j < len(src) ==> dst[j] == old(src[j]) ^ hi8(aesE(stream(cf.c), vec16(k, cfbR(cf, src, dst, j, k)))))   [@value]
+//@   ensures all(j, 16, len(src), dst[j] == old(src[j]) ^ hi8(aesE(stream(cf.c), vec16(k, cfbC(cf, src, dst, j + k - 16)))))   [@value]
 //@   ensures all(k, 0, 16, cf.iv[cf.ivPos + k] == cfbR(cf, src, dst, len(src), k))   [@value]
 //@   modifies cf.iv[:], cf.ivPos, dst[0:len(src)]                                    [@frame]
 
